@@ -20,8 +20,8 @@ def detectErr (routes : List Route) (req : Req) : Nat × Option (List Str) :=
   let c2 := c1.filter (fun r => req.method = r.method)
   if c2.isEmpty then (405, some (allowedMethods c1 [])) else
   let c3 := c2.filter (matchesContentType · req.contentType)
-  if c3.isEmpty && decide (req.contentLength > 0) then (415, none) else
-  if bodylessMethods.contains req.method && (req.clenHeader.isEmpty || req.clenHeader = ['0'])
+  if c3.isEmpty && decide (req.contentLength ≠ 0) then (415, none) else
+  if bodylessMethods.contains req.method && decide (req.contentLength = 0)
   then (415, none) else (406, none)
 
 theorem detectRoute_eq (routes : List Route) (req : Req) :
@@ -41,7 +41,7 @@ theorem detectRoute_eq (routes : List Route) (req : Req) :
     · simp only [h2, Bool.false_eq_true, if_false]
       by_cases h3 : ((List.filter (fun x => matchesContentType x req.contentType)
           (List.filter (fun r => decide (req.method = r.method))
-            (List.filter (fun x => passesConds x req) routes))).isEmpty && decide (req.contentLength > 0)) = true
+            (List.filter (fun x => passesConds x req) routes))).isEmpty && decide (req.contentLength ≠ 0)) = true
       · have h3' := List.isEmpty_iff.mp (Bool.and_eq_true_iff.mp h3).1
         rw [if_pos h3, if_pos h3, h3']
         rfl
